@@ -94,8 +94,8 @@ def exact_value(val):
     if val.is_Float:
         r, ok = recover(float(val))
         if ok:
-            return {'sym': r, 'sym_float': True}
-        return {'sym_inexact': str(val)}
+            return {'sym': r, 'sym_float': True, 'sym_raw': repr(float(val))}
+        return {'sym_inexact': str(val), 'sym_raw': repr(float(val))}
     if val in (sp.nan, sp.zoo, sp.oo, -sp.oo) or val.has(sp.nan, sp.zoo, sp.oo):
         return {'sym_undef': str(val)}
     if val.is_number:
@@ -336,6 +336,39 @@ def run_sim(c):
     return out
 
 
+def make_tv(c):
+    T, N = float(Fraction(c['T'])), int(c['N'])
+    grid = c.get('grid', 'uniform')
+    if grid == 'uniform':
+        return np.linspace(0, T, N)
+    if grid == 'quadratic':
+        return T * np.linspace(0, 1, N) ** 2
+    if grid == 'two-rate':
+        return np.hstack((np.linspace(0, 1, N)[:-1], np.linspace(1, T, N // 2)))
+    raise ValueError('grid')
+
+
+def run_simres(c):
+    """one Simulator run of an arbitrary circuit, with everything needed to re-check every step against the
+    stamped system: the constant part A, the right-hand side Z(t_n), the reactive components and their indices"""
+    from lcapy.simulator import Simulator
+    from lcapy.sym import tsym
+    cct = lcapy.Circuit()
+    for ln in c['net']:
+        cct.add(ln)
+    tv = make_tv(c)
+    sim = Simulator(cct)
+    r = sim(tv, integrator=c['integrator'])
+    nn = r.num_nodes
+    out = {'tv': [repr(float(u)) for u in tv], 'nn': nn, 'nb': r.num_branches,
+           'A': [[repr(float(v)) for v in row] for row in sim.A],
+           'Z': [[repr(float(v)) for v in np.array(sim.Zsym.subs({tsym: t1})).astype(float).reshape(-1)] for t1 in tv],
+           'cpts': [{'cls': type(q).__name__, 'X': repr(float(getattr(q, 'Cval', None) if hasattr(q, 'Cval') else q.Lval)),
+                     'i1': int(q.v1_index), 'i2': int(q.v2_index), 'i3': int(q.v3_index), 'ib': int(q.i_index)} for q in sim.reactive_cpts],
+           'x': [[repr(float(v)) for v in list(r.node_voltages[0:nn, n]) + list(r.branch_currents[:, n])] for n in range(len(tv))]}
+    return out
+
+
 def run_response(c):
     H = lcapy.expr(c['H'])
     if c.get('wrap') == 'transfer':
@@ -352,7 +385,7 @@ def main():
     cases = json.load(sys.stdin)
     res = []
     tab = {'expr': run_expr, 'text': run_text, 'lambdify': run_lambdify, 'simstep': run_simstep,
-           'rmodel': run_rmodel, 'sim': run_sim, 'response': run_response}
+           'rmodel': run_rmodel, 'sim': run_sim, 'simres': run_simres, 'response': run_response}
     import io
     import contextlib
     import signal
